@@ -397,8 +397,8 @@ Proof.
     pose proof (wo_size_pl _ Hpl0) as Hsz. unfold SIZEOF_chunk_header in Eo. rewrite Hpl in *.
     change (fm_pad_len SIZEOF_track_head) with 4 in *. unfold SIZEOF_track_head in *.
     assert (Hw : off + rf_len b <= rf_len f) by (unfold rf_len; lia).
-    rewrite e2_write_inpl by exact Hw.
-    set (f' := e2_inpl f off b).
+    rewrite e2_write_inpl in * by exact Hw.
+    set (f' := e2_inpl f off b) in *.
     assert (Hl' : rf_len f <= rf_len f') by (subst f'; unfold rf_len; rewrite e2_inpl_length by exact Hw; lia).
     assert (Hpn : rp_pend q = None) by (apply (e2_pend_none s q f J); intros h Hh; rewrite Epend in Hh; discriminate).
     assert (HSt : forall x, In x (wo_exts s) -> x <> xt -> e2_stable f f' (wo_e_off x + 32) (wo_e_off x + wo_size (wo_e_hdr x))).
@@ -424,14 +424,341 @@ Proof.
         pose proof (j_tbl _ _ _ J xt Hxt) as T. rewrite Hxo, Hxh, Hpl in T. rewrite (T Hhd), Hxtb.
         replace (ot + 32 + 136 - 4) with (off + 4) by lia.
         assert (Eb : fm_sub (off + 4) 4 f' = fm_sub 4 4 b).
-        { rewrite <- (e2_sub_inpl_at f off b Hw) at 2. fold f'. rewrite e2_sub_sub by lia. reflexivity. }
+        { transitivity (fm_sub 4 4 (fm_sub off (rf_len b) f')); [|subst f'; rewrite (e2_sub_inpl_at f off b Hw); reflexivity].
+          rewrite e2_sub_sub by (unfold rf_len; lia). reflexivity. }
         rewrite Eb. unfold wo_footer_ok in Ef. apply andb_true_iff in Ef as [_ Ef]. apply N.eqb_eq in Ef.
         rewrite Hpl in Ef. change (N.to_nat (fm_pad_len 128)) with 4%nat in Ef. rewrite <- Ef.
         unfold fm_dec_u32, fm_sub. change (N.to_nat 4) with 4%nat. reflexivity.
       * apply (e2_keep_crc f f' Hl'); [apply (j_crc _ _ _ J x Hx)|apply HSt; [exact Hx|intro K; subst x; congruence]].
         unfold e2_not_tbl. rewrite Epend. intro Eo2. apply Hne. congruence.
-    + admit.
+    + intros x Hx Hh. destruct (N.eq_dec (wo_e_off x) ot) as [Ex|Hne].
+      * assert (x = xt) by (eapply e2_nodup_off_inj; eauto; congruence). subst x.
+        pose proof (j_tbl _ _ _ J xt Hxt Hh) as T. rewrite <- T. rewrite Hxo, Hxh, Hpl. apply HStt; lia.
+      * apply (e2_keep_tbl f f'); [apply (j_tbl _ _ _ J x Hx Hh)|apply HSt; [exact Hx|intro K; subst x; congruence]].
     + intros h p Hp. discriminate.
     + intros o h p Hp. discriminate. }
-  all: admit.
-Admitted.
+  all: destruct (wo_len s <? off) eqn:Ehole; [discriminate|]; apply N.ltb_ge in Ehole.
+  all: destruct (off =? wo_len s) eqn:Eapp.
+  all: try (apply N.eqb_eq in Eapp; subst off; rewrite e2_write_app in * by (unfold rf_len; lia)).
+  all: try assert (HApp : forall x, In x (wo_exts s) -> e2_stable f (f ++ b) (wo_e_off x + 32) (wo_e_off x + wo_size (wo_e_hdr x)))
+         by (intros x Hx; destruct (Hxb x Hx) as (A & B & C); eapply e2_stable_sub; [apply e2_stable_app|lia|lia]).
+  all: try assert (HlA : rf_len f <= rf_len (f ++ b)) by (unfold rf_len; rewrite app_length; lia).
+  - (* append, idle: a chunk header *)
+    destruct (fm_decode_chunk_header b) as [h|] eqn:Ed; [|discriminate].
+    destruct (N.of_nat (length b) =? SIZEOF_chunk_header) eqn:En; cbn [negb] in H; [|discriminate].
+    apply N.eqb_eq in En. unfold SIZEOF_chunk_header in En.
+    destruct (fm_decode_chunk_header_some _ _ Ed) as (_ & Ehf & _).
+    assert (Hpn : rp_pend q = None) by (apply (e2_pend_none s q f J); intros h0 Hh; rewrite Epend in Hh; discriminate).
+    rewrite (rf_step_hdr q (wo_len s) b Hpn (j_end _ _ _ J) E0) by lia. cbv zeta. rewrite <- Ehf.
+    destruct (fm_payload_length h =? 0) eqn:Epl; inversion H; subst s'; clear H.
+    + apply N.eqb_eq in Epl.
+      constructor; cbn [rp_end rp_pend rp_out wo_complete wo_set wo_len wo_end wo_exts wo_pending].
+      * exact I'.
+      * lia.
+      * exact Logic.I.
+      * constructor.
+        -- unfold e2_rel. cbn [wo_e_off wo_e_hdr rc_off rc_tag rc_meta rc_pay]. rewrite Epl.
+           repeat split; try reflexivity. exact Hpend.
+        -- eapply e2_F2_impl; [exact O|]. intros x c Hx Hr. eapply e2_rel_stable; [exact Hr|apply HApp; exact Hx].
+      * intros x [<-|Hx] _; [left; exact Epl|].
+        apply (e2_keep_crc f (f ++ b) HlA); [apply (j_crc _ _ _ J x Hx); unfold e2_not_tbl; rewrite Epend; exact Logic.I|apply HApp; exact Hx].
+      * intros x [<-|Hx] Hh.
+        -- cbn [wo_e_off wo_e_hdr wo_e_table]. rewrite Epl. destruct (fm_is_head_tag (fm_tag h)); reflexivity.
+        -- apply (e2_keep_tbl f (f ++ b)); [apply (j_tbl _ _ _ J x Hx Hh)|apply HApp; exact Hx].
+      * intros h0 p Hp. discriminate.
+      * intros o h0 p Hp. discriminate.
+    + apply N.eqb_neq in Epl.
+      constructor; cbn [rp_end rp_pend rp_out wo_complete wo_set wo_len wo_end wo_exts wo_pending].
+      * exact I'.
+      * lia.
+      * exists h. repeat split; try reflexivity. symmetry. exact Hpend.
+      * eapply e2_F2_impl; [exact O|]. intros x c Hx Hr. eapply e2_rel_stable; [exact Hr|apply HApp; exact Hx].
+      * intros x Hx _.
+        apply (e2_keep_crc f (f ++ b) HlA); [apply (j_crc _ _ _ J x Hx); unfold e2_not_tbl; rewrite Epend; exact Logic.I|apply HApp; exact Hx].
+      * intros x Hx Hh. apply (e2_keep_tbl f (f ++ b)); [apply (j_tbl _ _ _ J x Hx Hh)|apply HApp; exact Hx].
+      * intros h0 p Hp. discriminate.
+      * intros o h0 p Hp. discriminate.
+  - (* in place, idle *)
+    apply N.eqb_neq in Eapp. cbn [wo_is_idle negb] in H.
+    assert (Hpn : rp_pend q = None) by (apply (e2_pend_none s q f J); intros h0 Hh; rewrite Epend in Hh; discriminate).
+    destruct (wo_find off (wo_exts s)) as [x0|] eqn:Efind.
+    + (* header link *)
+      destruct (wo_find_some _ _ _ Efind) as [Hx0 Hx0off].
+      destruct (fm_decode_chunk_header b) as [h'|] eqn:Ed; [|discriminate].
+      destruct (N.of_nat (length b) =? SIZEOF_chunk_header) eqn:En; cbn [negb] in H; [|discriminate].
+      apply N.eqb_eq in En. unfold SIZEOF_chunk_header in En.
+      destruct (wo_hdr_diff false (wo_e_hdr x0) h') as [r|] eqn:Ediff; [discriminate|].
+      apply wo_hdr_diff_none in Ediff. destruct Ediff as (D1 & D2 & D3 & D4 & D5 & D6).
+      inversion H; subst s'. clear H.
+      destruct (Hxb x0 Hx0) as (A & B & C). pose proof (wo_size_ge (wo_e_hdr x0)) as Hsx.
+      assert (Hw : off + rf_len b <= rf_len f) by (unfold rf_len in *; lia).
+      rewrite e2_write_inpl in * by exact Hw.
+      set (f' := e2_inpl f off b) in *.
+      assert (Hl' : rf_len f <= rf_len f') by (subst f'; unfold rf_len; rewrite e2_inpl_length by exact Hw; lia).
+      assert (HSt : forall x, In x (wo_exts s) -> e2_stable f f' (wo_e_off x + 32) (wo_e_off x + wo_size (wo_e_hdr x))).
+      { intros x Hx. destruct (Hxb x Hx) as (A2 & B2 & C2). pose proof (wo_size_ge (wo_e_hdr x)).
+        subst f'. apply e2_inpl_stable_region; [exact Hw| |lia].
+        destruct (N.eq_dec (wo_e_off x) off) as [Ex|Hne]; [right; unfold rf_len; lia|].
+        assert (Hxne : x <> x0) by (intro K; subst x; congruence).
+        destruct (Hdisj x x0 Hx Hx0 Hxne) as [K|K]; unfold rf_len in *; lia. }
+      rewrite (e2_rf_skip q off b (wo_len s) Hpn (j_end _ _ _ J)); [|unfold rf_len in *; lia|left; exact Eapp].
+      set (y := {| wo_e_off := off; wo_e_hdr := h'; wo_e_table := wo_e_table x0 |}).
+      assert (HinU : forall x, In x (wo_update y (wo_exts s)) -> x = y \/ (In x (wo_exts s) /\ wo_e_off x <> off)).
+      { intros x Hx. exact (e2_in_update y (wo_exts s) x Hnd Hx). }
+      constructor; cbn [rp_end rp_pend rp_out wo_set wo_len wo_end wo_exts wo_pending].
+      * exact I'.
+      * reflexivity.
+      * exact Logic.I.
+      * eapply e2_F2_update; [exact O| | |exact Hnd].
+        -- intros x c Hx Hr _. eapply e2_rel_stable; [exact Hr|apply HSt; exact Hx].
+        -- intros x c Hx Hr Ex. cbn [wo_e_off y] in Ex.
+           assert (x = x0) by (eapply e2_nodup_off_inj; eauto; congruence). subst x.
+           pose proof (e2_rel_stable f f' x0 c Hr (HSt x0 Hx0)) as (R1 & R2 & R3 & R4 & R5).
+           unfold e2_rel. cbn [wo_e_off wo_e_hdr y]. rewrite D2, D4, D5. rewrite Hx0off in R1, R5.
+           repeat (split; [assumption|]). exact R5.
+      * intros x Hx _. destruct (HinU x Hx) as [->|[Hx' Hne]].
+        -- cbn [wo_e_off wo_e_hdr y]. rewrite D5. rewrite <- Hx0off.
+           apply (e2_keep_crc f f' Hl'); [apply (j_crc _ _ _ J x0 Hx0); unfold e2_not_tbl; rewrite Epend; exact Logic.I|apply HSt; exact Hx0].
+        -- apply (e2_keep_crc f f' Hl'); [apply (j_crc _ _ _ J x Hx'); unfold e2_not_tbl; rewrite Epend; exact Logic.I|apply HSt; exact Hx'].
+      * intros x Hx Hh. destruct (HinU x Hx) as [->|[Hx' Hne]].
+        -- cbn [wo_e_off wo_e_hdr wo_e_table y] in *. rewrite D5. rewrite D2 in Hh. rewrite <- Hx0off.
+           apply (e2_keep_tbl f f'); [apply (j_tbl _ _ _ J x0 Hx0 Hh)|apply HSt; exact Hx0].
+        -- apply (e2_keep_tbl f f'); [apply (j_tbl _ _ _ J x Hx' Hh)|apply HSt; exact Hx'].
+      * intros h0 p Hp. discriminate.
+      * intros o h0 p Hp. discriminate.
+    + (* head table *)
+      destruct (off <? SIZEOF_chunk_header) eqn:Elt; [discriminate|]. apply N.ltb_ge in Elt. unfold SIZEOF_chunk_header in *.
+      destruct (wo_find (off - 32) (wo_exts s)) as [x0|] eqn:Efind2; [|discriminate].
+      destruct (wo_find_some _ _ _ Efind2) as [Hx0 Hx0off].
+      destruct (fm_is_head_tag (fm_tag (wo_e_hdr x0))) eqn:Ehd; cbn [negb] in H; [|discriminate].
+      destruct ((fm_payload_length (wo_e_hdr x0) =? SIZEOF_track_head) && (N.of_nat (length b) =? SIZEOF_track_head)) eqn:El;
+        cbn [negb] in H; [|discriminate].
+      apply andb_true_iff in El as [Epl En]. apply N.eqb_eq in Epl, En. unfold SIZEOF_track_head in *.
+      destruct (wo_tbl_check _ _ _ _ _) as [r|]; [discriminate|]. inversion H; subst s'. clear H.
+      destruct (Hxb x0 Hx0) as (A & B & C).
+      assert (Hpl0 : fm_payload_length (wo_e_hdr x0) <> 0) by (rewrite Epl; discriminate).
+      pose proof (wo_size_pl _ Hpl0) as Hsz. rewrite Epl in Hsz. change (fm_pad_len 128) with 4 in Hsz.
+      assert (Hw : off + rf_len b <= rf_len f) by (unfold rf_len in *; lia).
+      rewrite e2_write_inpl in * by exact Hw.
+      set (f' := e2_inpl f off b) in *.
+      assert (Hl' : rf_len f <= rf_len f') by (subst f'; unfold rf_len; rewrite e2_inpl_length by exact Hw; lia).
+      assert (HSt : forall x, In x (wo_exts s) -> x <> x0 -> e2_stable f f' (wo_e_off x + 32) (wo_e_off x + wo_size (wo_e_hdr x))).
+      { intros x Hx Hne. destruct (Hxb x Hx) as (A2 & B2 & C2). pose proof (wo_size_ge (wo_e_hdr x)).
+        subst f'. apply e2_inpl_stable_region; [exact Hw| |lia].
+        destruct (Hdisj x x0 Hx Hx0 Hne) as [K|K]; unfold rf_len in *; lia. }
+      rewrite (e2_rf_skip q off b (wo_len s) Hpn (j_end _ _ _ J)); [|unfold rf_len in *; lia|left; exact Eapp].
+      set (y := {| wo_e_off := wo_e_off x0; wo_e_hdr := wo_e_hdr x0; wo_e_table := b |}).
+      assert (HinU : forall x, In x (wo_update y (wo_exts s)) -> x = y \/ (In x (wo_exts s) /\ wo_e_off x <> wo_e_off x0)).
+      { intros x Hx. exact (e2_in_update y (wo_exts s) x Hnd Hx). }
+      assert (Hne0 : forall x, In x (wo_exts s) -> wo_e_off x <> wo_e_off x0 -> x <> x0) by (intros x _ K E; subst x; congruence).
+      constructor; cbn [rp_end rp_pend rp_out wo_set wo_len wo_end wo_exts wo_pending].
+      * exact I'.
+      * reflexivity.
+      * exact Logic.I.
+      * eapply e2_F2_update; [exact O| | |exact Hnd].
+        -- intros x c Hx Hr Ex. cbn [wo_e_off y] in Ex. eapply e2_rel_stable; [exact Hr|apply HSt; [exact Hx|apply Hne0; assumption]].
+        -- intros x c Hx Hr Ex. cbn [wo_e_off y] in Ex.
+           assert (x = x0) by (eapply e2_nodup_off_inj; eauto). subst x.
+           destruct Hr as (R1 & R2 & R3 & R4 & R5). unfold e2_rel. cbn [wo_e_off wo_e_hdr y].
+           repeat (split; [assumption|]). intro K. rewrite Ehd in K. discriminate.
+      * intros x Hx Hnt. destruct (HinU x Hx) as [->|[Hx' Hne]].
+        -- unfold e2_not_tbl in Hnt. cbn [wo_pending wo_set wo_e_off y] in Hnt. elim Hnt. reflexivity.
+        -- apply (e2_keep_crc f f' Hl'); [apply (j_crc _ _ _ J x Hx'); unfold e2_not_tbl; rewrite Epend; exact Logic.I|apply HSt; [exact Hx'|apply Hne0; assumption]].
+      * intros x Hx Hh. destruct (HinU x Hx) as [->|[Hx' Hne]].
+        -- cbn [wo_e_off wo_e_hdr wo_e_table y]. rewrite Epl. replace (wo_e_off x0 + 32) with off by lia.
+           replace 128 with (rf_len b) by (unfold rf_len; lia). subst f'. apply e2_sub_inpl_at. exact Hw.
+        -- apply (e2_keep_tbl f f'); [apply (j_tbl _ _ _ J x Hx' Hh)|apply HSt; [exact Hx'|apply Hne0; assumption]].
+      * intros h0 p Hp. discriminate.
+      * intros o h0 p Hp. inversion Hp; subst o h0 p. exists y. split; [eapply e2_in_update_self; cbn [wo_e_off y]; exact (eq_ind _ (fun o => wo_find o (wo_exts s) = Some x0) Efind2 _ (eq_sym Hx0off))|].
+        repeat split.
+  - (* append, header written: the payload *)
+    destruct Hpend as (Hd & Hl & Hpl).
+    destruct (N.of_nat (length b) =? fm_payload_length hp) eqn:En; [|discriminate]. apply N.eqb_eq in En.
+    inversion H; subst s'. clear H.
+    pose proof (j_pend _ _ _ J) as P. rewrite Epend in P.
+    destruct (rp_pend q) as [[[o t] m]|] eqn:Eq; [|elim P].
+    destruct P as (h0 & Eh0 & Eo & Et & Em). inversion Eh0; subst h0. subst o t m.
+    pose proof (j_end _ _ _ J) as Hqe.
+    assert (Hq : rf_step q (WmWrite (wo_len s) b) =
+                 {| rp_end := wo_len s + rf_len b; rp_pend := None;
+                    rp_out := {| rc_off := wo_end s; rc_tag := fm_tag hp; rc_meta := fm_chunk_meta hp; rc_pay := b |} :: rp_out q |}).
+    { rewrite Hl. rewrite (rf_step_pay q (wo_end s) (fm_tag hp) (fm_chunk_meta hp) b Eq); [reflexivity|lia]. }
+    rewrite Hq.
+    constructor; cbn [rp_end rp_pend rp_out wo_complete wo_set wo_len wo_end wo_exts wo_pending].
+    + exact I'.
+    + unfold rf_len. reflexivity.
+    + exact Logic.I.
+    + eexists. eexists. split; [reflexivity|]. cbn [rc_off rc_tag rc_meta rc_pay]. repeat (split; [reflexivity|]).
+      eapply e2_F2_impl; [exact O|]. intros x c Hx Hr. eapply e2_rel_stable; [exact Hr|apply HApp; exact Hx].
+    + intros x Hx _.
+      apply (e2_keep_crc f (f ++ b) HlA); [apply (j_crc _ _ _ J x Hx); unfold e2_not_tbl; rewrite Epend; exact Logic.I|apply HApp; exact Hx].
+    + intros x Hx Hh. apply (e2_keep_tbl f (f ++ b)); [apply (j_tbl _ _ _ J x Hx Hh)|apply HApp; exact Hx].
+    + intros h0 p Hp. inversion Hp; subst h0 p. split; [|unfold rf_len; exact En].
+      replace (wo_end s + 32) with (rf_len f) by (unfold rf_len; lia). rewrite <- En. apply e2_sub_app_at.
+    + intros o h0 p Hp. discriminate.
+  - (* in place while appending *)
+    cbn [wo_is_idle negb] in H. discriminate.
+  - (* append, payload written: pad + CRC *)
+    destruct Hpend as (Hd & Hl & Hpl).
+    destruct (wo_footer_ok hp pp b) eqn:Ef; [|discriminate]. pose proof (wo_footer_len _ _ _ Ef) as Efl.
+    inversion H; subst s'. clear H.
+    pose proof (wo_size_pl _ Hpl) as Hsz.
+    assert (Hpn : rp_pend q = None) by (apply (e2_pend_none s q f J); intros h0 Hh; rewrite Epend in Hh; discriminate).
+    pose proof (fm_pad_len_lt (fm_payload_length hp)) as Hpad.
+    rewrite rf_step_skip; [|exact Hpn|right; lia].
+    destruct O as (c & rest & Eout & Oc1 & Oc2 & Oc3 & Oc4 & Orest).
+    destruct (j_fl _ _ _ J hp pp Epend) as (Fl1 & Fl2).
+    assert (HstN : e2_stable f (f ++ b) (wo_end s + 32) (wo_end s + 32 + fm_payload_length hp)).
+    { eapply e2_stable_sub; [apply e2_stable_app|lia|unfold rf_len; lia]. }
+    assert (HpayN : fm_sub (wo_end s + 32) (fm_payload_length hp) (f ++ b) = pp).
+    { rewrite <- Fl1. apply HstN; lia. }
+    constructor; cbn [rp_end rp_pend rp_out wo_complete wo_set wo_len wo_end wo_exts wo_pending].
+    + exact I'.
+    + rewrite (j_end _ _ _ J). unfold rf_len. lia.
+    + exact Logic.I.
+    + rewrite Eout. constructor.
+      * unfold e2_rel. cbn [wo_e_off wo_e_hdr]. rewrite Oc1, Oc2, Oc3, Oc4.
+        repeat (split; [reflexivity|]). split; [symmetry; exact Fl2|]. intros _. exact HpayN.
+      * eapply e2_F2_impl; [exact Orest|]. intros x c0 Hx Hr. eapply e2_rel_stable; [exact Hr|apply HApp; exact Hx].
+    + intros x [<-|Hx] _.
+      * cbn [wo_e_off wo_e_hdr]. right.
+        assert (Hdl : fm_disk_len (fm_payload_length hp) = fm_payload_length hp + fm_pad_len (fm_payload_length hp) + 4).
+        { unfold fm_disk_len, RAW_CRC_SIZE. destruct (fm_payload_length hp =? 0) eqn:E; [apply N.eqb_eq in E; congruence|reflexivity]. }
+        split; [unfold rf_len; rewrite app_length; lia|].
+        rewrite HpayN.
+        replace (wo_end s + 32 + fm_disk_len (fm_payload_length hp) - 4) with (rf_len f + fm_pad_len (fm_payload_length hp)) by (unfold rf_len; lia).
+        rewrite e2_sub_app_hi.
+        unfold wo_footer_ok in Ef. apply andb_true_iff in Ef as [_ Ef]. apply N.eqb_eq in Ef. rewrite <- Ef.
+        unfold fm_dec_u32, fm_sub. change (N.to_nat 4) with 4%nat. reflexivity.
+      * apply (e2_keep_crc f (f ++ b) HlA); [apply (j_crc _ _ _ J x Hx); unfold e2_not_tbl; rewrite Epend; exact Logic.I|apply HApp; exact Hx].
+    + intros x [<-|Hx] Hh.
+      * cbn [wo_e_off wo_e_hdr wo_e_table] in *. rewrite Hh. exact HpayN.
+      * apply (e2_keep_tbl f (f ++ b)); [apply (j_tbl _ _ _ J x Hx Hh)|apply HApp; exact Hx].
+    + intros h0 p Hp. discriminate.
+    + intros o h0 p Hp. discriminate.
+  - cbn [wo_is_idle negb] in H. discriminate.
+Qed.
+
+(* ================================================================ whole logs *)
+Definition e2_is_trunc (e : wm_entry) : bool := match e with WmTrunc _ => true | _ => false end.
+(* O_TRUNC / ftruncate occurs only as the oldest entry of the log (logs are kept newest first) *)
+Definition e2_trunc_first (log : wm_log) : Prop := Forall (fun e => e2_is_trunc e = false) (removelast log).
+
+Lemma e2_scan_fold : forall log, rf_scan log = fold_left rf_step (rev log) rf_pst0.
+Proof.
+  induction log as [|e l IH]; [reflexivity|]. cbn [rf_scan rev]. rewrite fold_left_app. cbn [fold_left]. rewrite IH. reflexivity.
+Qed.
+
+Lemma e2_run_J : forall evs s q f i s',
+  e2_J s q f -> wo_run false s i (map wmw_to_wo evs) = inl s' -> Forall (fun e => e2_is_trunc e = false) evs ->
+  e2_J s' (fold_left rf_step evs q) (fold_left wo_apply (map wmw_to_wo evs) f).
+Proof.
+  induction evs as [|e evs IH]; intros s q f i s' J H Hnt; cbn [map wo_run fold_left] in *.
+  - inversion H; subst. exact J.
+  - destruct (wo_step false s (wmw_to_wo e)) as [s1|why] eqn:Es; [|discriminate].
+    inversion Hnt as [|? ? He Hnt']; subst.
+    apply (IH s1 (rf_step q e) (wo_apply f (wmw_to_wo e)) (i + 1) s'); [|exact H|exact Hnt'].
+    apply (e2_step s q f e s1 J Es). intros n En. subst e. discriminate He.
+Qed.
+
+Lemma e2_removelast_rev : forall (A : Type) (l : list A), removelast l = rev (tl (rev l)).
+Proof.
+  intros A l. destruct (rev l) as [|x r] eqn:E.
+  - apply (f_equal (@rev A)) in E. rewrite rev_involutive in E. subst l. reflexivity.
+  - apply (f_equal (@rev A)) in E. rewrite rev_involutive in E. subst l. cbn [rev tl]. rewrite removelast_last. reflexivity.
+Qed.
+
+Theorem e2_log_J : forall log s,
+  wo_run false wo_st0 0 (wmw_evs log) = inl s -> e2_trunc_first log ->
+  e2_J s (rf_scan log) (wo_file_after (wmw_evs log)).
+Proof.
+  intros log s H Ht. rewrite e2_scan_fold. unfold wmw_evs, wo_file_after in *. unfold e2_trunc_first in Ht.
+  rewrite e2_removelast_rev in Ht. apply Forall_rev in Ht. rewrite rev_involutive in Ht.
+  destruct (rev log) as [|e0 evs]; cbn [map wo_run fold_left tl] in *.
+  - inversion H; subst. apply e2_J0.
+  - destruct (wo_step false wo_st0 (wmw_to_wo e0)) as [s1|why] eqn:Es; [|discriminate].
+    apply (e2_run_J evs s1 (rf_step rf_pst0 e0) (wo_apply [] (wmw_to_wo e0)) (0 + 1) s); [|exact H|exact Ht].
+    apply (e2_step wo_st0 rf_pst0 [] e0 s1 e2_J0 Es). intros. reflexivity.
+Qed.
+
+(* ================================================================ what it says about each chunk of the chunk view *)
+(* the complete chunk (h, p) stands at offset o of f: CRC-valid header, payload bytes, valid payload CRC, inside the file *)
+Definition e2_chunk_at (f : list N) (o : N) (h : fm_chunk_header) (p : list N) : Prop :=
+  fm_decode_chunk_header (skipn (N.to_nat o) f) = Some h /\ rf_len p = fm_payload_length h /\
+  fm_sub (o + 32) (rf_len p) f = p /\ e2_crc_ok f o (rf_len p) /\ 32 <= o /\ o + fm_chunk_size (rf_len p) <= rf_len f.
+
+Lemma e2_F2_in_r : forall (A B : Type) (R : A -> B -> Prop) l1 l2 b, Forall2 R l1 l2 -> In b l2 -> exists a, In a l1 /\ R a b.
+Proof.
+  intros A B R l1 l2 b H. induction H as [|x y l1 l2 Hxy HF IH]; intros Hin; [destruct Hin|].
+  destruct Hin as [<-|Hin]; [exists x; split; [left; reflexivity|exact Hxy]|].
+  destruct (IH Hin) as (a & Ha & Hr). exists a. split; [right; exact Ha|exact Hr].
+Qed.
+
+Lemma e2_find_in : forall E x, NoDup (map wo_e_off E) -> In x E -> wo_find (wo_e_off x) E = Some x.
+Proof.
+  induction E as [|z E IH]; intros x Hnd Hx; [destruct Hx|]. cbn [map] in Hnd. inversion Hnd as [|? ? Hni Hnd']; subst.
+  cbn [wo_find]. destruct Hx as [->|Hx]; [rewrite N.eqb_refl; reflexivity|].
+  destruct (N.eqb_spec (wo_e_off z) (wo_e_off x)) as [E0|_]; [|apply IH; assumption].
+  exfalso. apply Hni. rewrite E0. apply in_map. exact Hx.
+Qed.
+
+(* when nothing is pending (between two chunk appends / table rewrites; in particular between API calls and at the end) *)
+Theorem e2_J_chunk : forall s q f c, e2_J s q f -> wo_pending s = WoIdle -> In c (rp_out q) ->
+  exists x, In x (wo_exts s) /\ wo_find (rc_off c) (wo_exts s) = Some x /\ wo_e_off x = rc_off c /\
+    fm_tag (wo_e_hdr x) = rc_tag c /\ fm_chunk_meta (wo_e_hdr x) = rc_meta c /\
+    (if fm_is_head_tag (rc_tag c) then e2_chunk_at f (rc_off c) (wo_e_hdr x) (wo_e_table x) /\ rf_len (wo_e_table x) = rf_len (rc_pay c)
+     else e2_chunk_at f (rc_off c) (wo_e_hdr x) (rc_pay c)).
+Proof.
+  intros s q f c J Hidle Hc.
+  pose proof (j_out _ _ _ J) as O. rewrite Hidle in O.
+  destruct (e2_F2_in_r _ _ _ _ _ _ O Hc) as (x & Hx & (R1 & R2 & R3 & R4 & R5)).
+  pose proof (j_wo _ _ _ J) as I.
+  assert (E0 : wo_len s <> 0) by (intro E; destruct (wi_empty _ _ I E) as [Hex _]; rewrite Hex in Hx; destruct Hx).
+  pose proof (wi_chain _ _ I E0) as Hch. destruct (wo_chunks_bounds _ _ _ Hch) as [He Hbd].
+  destruct (Hbd _ _ (e2_ext_in_pairs _ _ Hx)) as (A & B & C & D).
+  assert (Hnd : NoDup (map wo_e_off (wo_exts s))) by (rewrite <- e2_pairs_offs; eapply e2_chunks_nodup; exact Hch).
+  pose proof (j_crc _ _ _ J x Hx) as Hcrc. unfold e2_not_tbl in Hcrc. rewrite Hidle in Hcrc. specialize (Hcrc Logic.I).
+  exists x. split; [exact Hx|]. split; [rewrite <- R1; apply e2_find_in; assumption|]. split; [exact R1|]. split; [exact R2|]. split; [exact R3|].
+  rewrite <- R2. rewrite <- R1.
+  assert (Hsz : wo_e_off x + fm_chunk_size (fm_payload_length (wo_e_hdr x)) <= rf_len f) by (unfold wo_size, rf_len in *; lia).
+  destruct (fm_is_head_tag (fm_tag (wo_e_hdr x))) eqn:Eh.
+  - pose proof (j_tbl _ _ _ J x Hx Eh) as T.
+    assert (Hl : rf_len (wo_e_table x) = fm_payload_length (wo_e_hdr x)).
+    { rewrite <- T. unfold rf_len. rewrite e2_sub_length; [lia|].
+      pose proof (e2_disk_len_ge (fm_payload_length (wo_e_hdr x))). unfold fm_chunk_size, SIZEOF_chunk_header in Hsz. lia. }
+    split; [|congruence]. unfold e2_chunk_at. rewrite Hl. repeat split; try assumption.
+  - unfold e2_chunk_at. rewrite <- R4. repeat split; try assumption. apply R5. reflexivity.
+Qed.
+
+(* the chunks lie back to back from offset 32 to the end of the file *)
+Inductive e2_layout : list rf_chunk -> N -> N -> Prop :=
+| e2_layout_nil : forall a, e2_layout [] a a
+| e2_layout_cons : forall c r a z, rc_off c = a -> e2_layout r (a + fm_chunk_size (rf_len (rc_pay c))) z -> e2_layout (c :: r) a z.
+
+Lemma e2_layout_snoc : forall l a m c, e2_layout l a m -> rc_off c = m -> e2_layout (l ++ [c]) a (m + fm_chunk_size (rf_len (rc_pay c))).
+Proof.
+  intros l a m c H. induction H as [a|c0 r a z Ho Hr IH]; intros Hc; cbn [app].
+  - constructor; [exact Hc|constructor].
+  - constructor; [exact Ho|apply IH; exact Hc].
+Qed.
+
+Lemma e2_chunks_layout : forall f E out e, wo_chunks f (wo_pairs E) e -> Forall2 (e2_rel f) E out -> e2_layout (rev out) 32 e.
+Proof.
+  intros f E out e H. revert out. remember (wo_pairs E) as L eqn:EL. revert E EL.
+  induction H as [|r o h Hr IH Hd Hb]; intros E EL out HF.
+  - destruct E; [|discriminate EL]. inversion HF; subst. constructor.
+  - destruct E as [|x E]; [discriminate EL|]. cbn [wo_pairs map] in EL. inversion EL as [[Eo Eh Er]].
+    inversion HF as [|? c ? out' Hxc HF']; subst. cbn [rev].
+    destruct Hxc as (R1 & R2 & R3 & R4 & R5). unfold wo_size. rewrite R4.
+    apply e2_layout_snoc; [apply (IH E eq_refl); exact HF'|symmetry; exact R1].
+Qed.
+
+Theorem e2_J_layout : forall s q f, e2_J s q f -> wo_pending s = WoIdle -> wo_len s <> 0 ->
+  e2_layout (rev (rp_out q)) 32 (rf_len f).
+Proof.
+  intros s q f J Hidle E0. pose proof (j_wo _ _ _ J) as I.
+  pose proof (j_out _ _ _ J) as O. rewrite Hidle in O.
+  pose proof (wi_pend _ _ I E0) as P. unfold wo_pend_ok in P. rewrite Hidle in P.
+  replace (rf_len f) with (wo_end s) by (rewrite P; exact (wi_len _ _ I)).
+  eapply e2_chunks_layout; [apply (wi_chain _ _ I E0)|exact O].
+Qed.
